@@ -5,6 +5,7 @@ through the real module's globals, so `np`, `EncodedArray`, helper functions ...
 the code really uses; each is then mapped to its model (npmodel) / its contract / its inlined source.
 """
 import ast
+import re
 import builtins
 import inspect
 import types
@@ -75,7 +76,49 @@ class Interp:
         if not self.cur_fn or lineno in (None, "None"):
             return "?"
         q, _, node = self.cur_fn[-1][:3]
-        return "%s+%d" % (q.split("::")[-1], int(lineno) - node.lineno)
+        return "%s#%s" % (q.split("::")[-1], self._stmt_key(node, int(lineno)))
+
+    _STMT_KEYS = {}
+
+    def _stmt_key(self, fnode, lineno):
+        """Name of a program point that survives edits elsewhere in the function: the text of the innermost statement that
+        covers the line (header only for compound statements), abbreviated, plus a hash of it and - when the same text occurs
+        more than once in the function - its ordinal in source order.  Inserting, deleting or moving OTHER lines, comments and
+        blank lines leave it unchanged; editing the statement itself changes it (then its obligations are new ones)."""
+        import hashlib
+        tab = self._STMT_KEYS.get(id(fnode))
+        if tab is None or tab[0] is not fnode:
+            stmts = [n for n in ast.walk(fnode) if isinstance(n, ast.stmt) and n is not fnode]
+            stmts.sort(key=lambda n: (n.lineno, n.col_offset))
+            seen, keys = {}, []
+            for n in stmts:
+                if isinstance(n, (ast.If, ast.While)):
+                    text = type(n).__name__.lower() + " " + ast.unparse(n.test)
+                elif isinstance(n, ast.For):
+                    text = "for " + ast.unparse(n.target) + " in " + ast.unparse(n.iter)
+                elif isinstance(n, ast.With):
+                    text = "with " + ", ".join(ast.unparse(i) for i in n.items)
+                elif isinstance(n, ast.Try):
+                    text = "try"
+                elif isinstance(n, (ast.FunctionDef, ast.ClassDef)):
+                    text = "def " + n.name
+                else:
+                    text = ast.unparse(n)
+                k = seen.get(text, 0)
+                seen[text] = k + 1
+                slug = re.sub(r"[^A-Za-z0-9]+", "_", text).strip("_")[:28]
+                key = "%s~%s%s" % (slug, hashlib.sha1(text.encode()).hexdigest()[:5], (".%d" % k) if k else "")
+                last = n.end_lineno if not isinstance(n, (ast.If, ast.While, ast.For, ast.With, ast.Try, ast.FunctionDef,
+                                                          ast.ClassDef)) else None
+                keys.append((n.lineno, last, n, key))
+            tab = (fnode, keys)
+            self._STMT_KEYS[id(fnode)] = tab
+        best = None
+        for lo, hi, n, key in tab[1]:
+            end = hi if hi is not None else n.end_lineno
+            if lo <= lineno <= end:
+                best = key          # source order: later (inner) statements override outer ones
+        return best or ("L+%d" % (lineno - fnode.lineno))
 
     # ==================================================================================
     # entry points
